@@ -43,6 +43,7 @@ def prepare():
 def draw_cfg(st):
     cfg = {
         "world": "seq",
+        "wide": st.choose(4, "wide") == 3,
         "late_remote": True,
         "max_ops": [8, 18, 35][st.choose(3, "size")],
         "max_depth": 1 + st.choose(5, "depth"),
